@@ -36,7 +36,7 @@ ASSUMPTIONS = ["image contents are binary (0/1 or False/True); tables are NumPy 
                "until-convergence is requested only where the synchronous rule reaches a fixed point (it does not "
                "terminate otherwise, in the rule and in the code alike)"]
 EXHAUSTIVE = {"quick": False, "thorough": False}
-CASE_TIMEOUT = 20
+CASE_TIMEOUT = 10
 
 TABLES = ["branchpoints_table", "bridge_table", "clean_table", "diag_table", "endpoints_table", "fill_table",
           "fill4_table", "hbreak_table", "vbreak_table", "life_table", "majority_table", "remove_table",
@@ -881,7 +881,7 @@ def _run_seq_isolated(case):
 # are unchanged: each spawns its own interpreter, now several at a time).  Any trouble (a child dies or hangs, the
 # stream is not the file's) switches to plain sequential evaluation, so the core's localisation of crashes and hangs
 # keeps working.
-_PRE = {"cases": None, "pos": 0, "res": {}, "pool": None, "off": False}
+_PRE = {"cases": None, "pos": 0, "res": {}, "pool": None, "off": False, "resume_at": None, "resumes": 0}
 _WORKERS = 4
 
 
@@ -929,11 +929,20 @@ def _pool_off():
 
 
 def _lookahead(case):
-    import json, os, sys
+    import json, os, sys, time
     st = _PRE
-    if st["off"]:
-        return None
     try:
+        k = st["pos"]
+        if st["cases"] is not None and k < len(st["cases"]) and k in st["res"] and st["cases"][k] == case:
+            st["pos"] = k + 1
+            return st["res"].pop(k)
+        if st["off"] and st["resume_at"] is not None and k >= st["resume_at"] and st["resumes"] < 6:
+            # the batch that had to be finished sequentially is behind us: use the pool again
+            st["off"] = False
+            st["resume_at"] = None
+            st["resumes"] += 1
+        if st["off"]:
+            return None
         if st["cases"] is None:
             ok = len(sys.argv) >= 5 and sys.argv[2] == "impl" and os.path.basename(sys.argv[3]).startswith("in_")
             if not ok:
@@ -944,42 +953,52 @@ def _lookahead(case):
             if len(st["cases"]) < 8:
                 st["off"] = True
                 return None
-        k = st["pos"]
         if k >= len(st["cases"]) or st["cases"][k] != case:
             _pool_off()
             return None
-        if k not in st["res"]:
-            import multiprocessing
-            from concurrent.futures import ProcessPoolExecutor
-            if st["pool"] is None:
-                st["pool"] = ProcessPoolExecutor(_WORKERS, mp_context=multiprocessing.get_context("fork"))
-            batch, cost = [], 0.0
-            while k + len(batch) < len(st["cases"]) and cost < 10.0 * _WORKERS and len(batch) < 20000:
-                c = st["cases"][k + len(batch)]
-                batch.append(c)
-                cost += _cost(c)
-            st["res"] = {}
-            # units of work: an expensive case alone, cheap cases in contiguous runs of about 0.25 s
-            units, cur, curcost = [], [], 0.0
-            for n, c in enumerate(batch):
-                w = _cost(c)
-                if w >= 0.2:
-                    if cur:
-                        units.append(cur); cur, curcost = [], 0.0
-                    units.append([n])
-                    continue
-                cur.append(n); curcost += w
-                if curcost >= 0.25 or len(cur) >= 128:
+        import multiprocessing
+        from concurrent.futures import ProcessPoolExecutor, wait
+        if st["pool"] is None:
+            st["pool"] = ProcessPoolExecutor(_WORKERS, mp_context=multiprocessing.get_context("fork"))
+        batch, cost = [], 0.0
+        while k + len(batch) < len(st["cases"]) and cost < 6.0 * _WORKERS and len(batch) < 20000:
+            c = st["cases"][k + len(batch)]
+            batch.append(c)
+            cost += _cost(c)
+        st["res"] = {}
+        # units of work: an expensive case alone, cheap cases in contiguous runs of about 0.25 s
+        units, cur, curcost = [], [], 0.0
+        for n, c in enumerate(batch):
+            w = _cost(c)
+            if w >= 0.2:
+                if cur:
                     units.append(cur); cur, curcost = [], 0.0
-            if cur:
-                units.append(cur)
-            units.sort(key=lambda u: -sum(_cost(batch[n]) for n in u))      # long ones first
-            futs = [(u, st["pool"].submit(_impl_many, [batch[n] for n in u])) for u in units]
-            for u, f in futs:
-                for n, r in zip(u, f.result(timeout=CASE_TIMEOUT * 2 + 20)):
+                units.append([n])
+                continue
+            cur.append(n); curcost += w
+            if curcost >= 0.25 or len(cur) >= 128:
+                units.append(cur); cur, curcost = [], 0.0
+        if cur:
+            units.append(cur)
+        units.sort(key=lambda u: -sum(_cost(batch[n]) for n in u))      # long ones first
+        futs = {st["pool"].submit(_impl_many, [batch[n] for n in u]): u for u in units}
+        # the core treats a worker that writes nothing for CASE_TIMEOUT + 15 s as hung: whatever is not finished
+        # well before that (a call that hangs in a child, a loaded machine) is left to the sequential path, which
+        # localises a hang to its own case
+        done, pending = wait(list(futs), timeout=14)
+        for f in done:
+            try:
+                for n, r in zip(futs[f], f.result(timeout=0)):
                     st["res"][k + n] = r
-        st["pos"] = k + 1
-        return st["res"].pop(k)
+            except Exception:
+                pass
+        if pending or len(done) != len(futs):
+            _pool_off()
+            st["resume_at"] = k + len(batch)
+        if k in st["res"]:
+            st["pos"] = k + 1
+            return st["res"].pop(k)
+        return None
     except BaseException as e:
         if isinstance(e, (KeyboardInterrupt, SystemExit)):
             raise
